@@ -88,7 +88,7 @@ def run_case(case):
     import websocket
 
     obs = Obs()
-    sched = simkit.Sched(choices=case.get("choices", []), preempt=case.get("preempt"), horizon=3000.0, repo=REPO, max_steps=800000)
+    sched = simkit.Sched(choices=case.get("choices", []), preempt=case.get("preempt"), horizon=400.0, repo=REPO, max_steps=800000)
     net = simkit.SimNet(sched)
     runs = case["runs"]
     attempts, expect = [], []
